@@ -4,6 +4,7 @@ import (
 	"bytes"
 	"fmt"
 	"sort"
+	"strings"
 
 	"github.com/hashicorp/hcl/v2"
 	"github.com/hashicorp/hcl/v2/hclsyntax"
@@ -211,6 +212,16 @@ func c18World(cs *explore.Case, c *report.Collector, l *report.Local, tier strin
 func C18(tier string) int {
 	c := report.NewCollector("C18")
 	cases := mcWorlds(tier)
+	// the one-constraint seeds once more without the final newline: the value ends the file (insertions before the
+	// items only: behind an unterminated last line everything the parser extends to the end of the file would
+	// change its extent, which is no pure shift)
+	for i, n := 0, len(cases); i < n; i++ {
+		if cs := cases[i]; cs.Family == "seed" && cs.Entry.Family == "cons" && strings.HasSuffix(cs.Text, "\n") {
+			cs.Text = strings.TrimSuffix(cs.Text, "\n")
+			cs.Family = "seed-noeol"
+			cases = append(cases, cs)
+		}
+	}
 	// broken files: also single-token edits of the first seeds (thorough) are in mcWorlds' prefix family
 	explore.ParallelEach(len(cases), c, explore.Deadline(tier), func(i int, l *report.Local) {
 		if cases[i].Family == "multifile" {
